@@ -131,6 +131,42 @@ class _Canon:
                 out.append(ast.copy_location(ast.Assign(targets=st.targets, value=ref), st))
         return out
 
+    def n15(self, body):
+        """N15: the transposition of a list of tuples, unpacked into names, is one comprehension per component:
+        `a, b, c = zip(*L)` / `cols = list(zip(*L)); a, b, c = cols[:3]`  ==  `a = [s[0] for s in L]; b = [s[1] for s in L]; ...`
+        (L a plain name; `cols` bound once and used only there)."""
+        def transposed(v):
+            while isinstance(v, ast.Call) and isinstance(v.func, ast.Name) and v.func.id in ("list", "tuple") and len(v.args) == 1 and not v.keywords:
+                v = v.args[0]
+            if isinstance(v, ast.Call) and isinstance(v.func, ast.Name) and v.func.id == "zip" and len(v.args) == 1 and isinstance(v.args[0], ast.Starred) and isinstance(v.args[0].value, ast.Name) and not v.keywords:
+                return v.args[0].value.id
+            return None
+
+        out = []
+        for st in body:
+            done = False
+            if isinstance(st, ast.Assign) and len(st.targets) == 1 and isinstance(st.targets[0], ast.Tuple) and all(isinstance(t, ast.Name) for t in st.targets[0].elts):
+                k = len(st.targets[0].elts)
+                v = st.value
+                drop = None
+                if isinstance(v, ast.Subscript) and isinstance(v.slice, ast.Slice) and v.slice.lower is None and v.slice.step is None and isinstance(v.slice.upper, ast.Constant) and v.slice.upper.value == k:
+                    v = v.value
+                lst = transposed(v)
+                if lst is None and isinstance(v, ast.Name) and self.count_stores(v.id) == 1 and self.count_loads(v.id) == 1 and out and isinstance(out[-1], ast.Assign) and len(out[-1].targets) == 1 and isinstance(out[-1].targets[0], ast.Name) and out[-1].targets[0].id == v.id:
+                    lst = transposed(out[-1].value)
+                    drop = out[-1] if lst is not None else None
+                if lst is not None and lst not in {t.id for t in st.targets[0].elts}:
+                    if drop is not None:
+                        out.pop()
+                    for i, t in enumerate(st.targets[0].elts):
+                        e = ast.Name(id="_s", ctx=ast.Load())
+                        comp = ast.ListComp(elt=ast.Subscript(value=e, slice=ast.Constant(value=i), ctx=ast.Load()), generators=[ast.comprehension(target=ast.Name(id="_s", ctx=ast.Store()), iter=ast.Name(id=lst, ctx=ast.Load()), ifs=[], is_async=0)])
+                        out.append(ast.fix_missing_locations(ast.copy_location(ast.Assign(targets=[t], value=comp), st)))
+                    done = True
+            if not done:
+                out.append(st)
+        return out
+
     def n13(self, body):
         """N13: `a, b = x, y` with plain names on the left and nothing on the right that the left binds is `a = x; b = y`."""
         out = []
@@ -476,7 +512,7 @@ def normalise(tree):
                     if isinstance(st_, ast.Try):
                         for h in st_.handlers:
                             h.body = _unroll(h.body)
-                return c.n13(c.n10(stmts))
+                return c.n15(c.n13(c.n10(stmts)))
             n.body = _unroll(n.body)
             n.body = [_CallOfChoice().visit(st) for st in n.body]
             c.n12()
